@@ -96,6 +96,28 @@ def run(eng, ctx):
     ctx.rule("C14.D3", "no bypass of __setattr__ anywhere in the package")
     allowed = {(sa.qualname, id(e.node)) for e in dels} | ({(init.qualname, id(first.node))} if first is not None else set()) | ({(init.qualname, id(last.node))} if last_is_super and okl else set())
     nby = 0
+    # a private method of the message class whose whole body is `super().__setattr__(<its name parameter>, <its value parameter>)` is the same
+    # delegation under a name: its call sites are judged instead (D1 / D2 see them inlined, with their guards) - they must all lie in the
+    # constructor or in __setattr__ itself, on `self`
+    for f in eng.repo.all_funcs():
+        if f.cls != cls or f.qualname in (sa.qualname, init.qualname) or len(f.params) != 3:
+            continue
+        body = [st for st in f.node.body if not (isinstance(st, ast.Expr) and isinstance(st.value, ast.Constant) and isinstance(st.value.value, str))]
+        if len(body) != 1 or not isinstance(body[0], ast.Expr) or not isinstance(body[0].value, ast.Call):
+            continue
+        c0 = body[0].value
+        if not (isinstance(c0.func, ast.Attribute) and c0.func.attr == "__setattr__" and isinstance(c0.func.value, ast.Call) and isinstance(c0.func.value.func, ast.Name) and c0.func.value.func.id == "super"
+                and not c0.func.value.args and not c0.keywords and len(c0.args) == 2 and all(isinstance(a, ast.Name) for a in c0.args) and [a.id for a in c0.args] == list(f.params[1:3])):
+            continue
+        wname = f.node.name
+        sites = [(g, n) for g in eng.repo.all_funcs() for n in ast.walk(g.node) if isinstance(n, ast.Attribute) and n.attr == wname]
+        outside = [(g, n) for g, n in sites if not (g.qualname in (sa.qualname, init.qualname) and isinstance(n.value, ast.Name) and n.value.id == g.params[0]
+                                                    and isinstance(eng.repo.parent(n), ast.Call) and eng.repo.parent(n).func is n)]
+        if not outside and sites:
+            allowed.add((f.qualname, id(c0)))
+        for g, n in outside[:3]:
+            nby += 1
+            ctx.bad("C14.D3", g.qualname, norm(eng.repo.enclosing_stmt(n))[:100], expected=f"the unguarded writer `{wname}` is used by the constructor and by __setattr__ only", found="use elsewhere (a sealed message can be changed through it)", **eng.loc(g, n))
     for f in eng.repo.all_funcs():
         for node in walk_no_nested(f.node):
             what = None
